@@ -307,6 +307,15 @@ def contains(I, st, container, item):
     if isinstance(container, HeapSeq):
         yield from container.contains(I, st, item)
         return
+    from .heap import HObj as _HObj
+
+    if isinstance(container, _HObj) and container.cls is not None:
+        m, _ = I.class_lookup(container.cls, "__contains__")
+        if m is None:
+            raise Unsupported("`in` on a heap object without __contains__")
+        for st1, r in I.call(m, [container, item], {}, st):
+            yield st1, (r if isinstance(r, Exc) else I.truth(r, st1))
+        return
     if isinstance(container, (tuple, FrozenList)):
         items = list(container) if isinstance(container, tuple) else container.items
         yield st, disj([eq_values(I, st, x, item) for x in items])
